@@ -330,7 +330,7 @@ where
 	}
 }
 
-impl<'a, L> IntoIterator for &'a mut RetryingLockCollection<L>
+impl<'a, L: OwnedLockable> IntoIterator for &'a mut RetryingLockCollection<L>
 where
 	&'a mut L: IntoIterator,
 {
@@ -363,7 +363,7 @@ impl<T: ?Sized, L: AsRef<T>> AsRef<T> for RetryingLockCollection<L> {
 	}
 }
 
-impl<T: ?Sized, L: AsMut<T>> AsMut<T> for RetryingLockCollection<L> {
+impl<T: ?Sized, L: OwnedLockable + AsMut<T>> AsMut<T> for RetryingLockCollection<L> {
 	fn as_mut(&mut self) -> &mut T {
 		self.data.as_mut()
 	}
@@ -490,7 +490,10 @@ impl<L> RetryingLockCollection<L> {
 	/// assert_eq!(*guard, 42);
 	/// ```
 	#[must_use]
-	pub fn child_mut(&mut self) -> &mut L {
+	pub fn child_mut(&mut self) -> &mut L
+	where
+		L: OwnedLockable,
+	{
 		&mut self.data
 	}
 
@@ -836,7 +839,7 @@ where
 	}
 }
 
-impl<'a, L: 'a> RetryingLockCollection<L>
+impl<'a, L: OwnedLockable + 'a> RetryingLockCollection<L>
 where
 	&'a mut L: IntoIterator,
 {
